@@ -101,15 +101,23 @@ bool exec_arith(ExecCtx &c) {
               store_result(c, dst, std::move(*res));
             };
             sim::g_cur->note = same ? 2 : 1;
+            const bool xv_ok = same && (const void *)a != (const void *)b;
+            const int cx = value_cat(c, a, 0, xv_ok), cy = value_cat(c, b, 1, xv_ok);
             if (op.kind == OP_P_MUL) {
               std::optional<Sp<kx + ky>> res;
-              libcall(out, [&] { res.emplace(x * y); });
+              libcall(out, [&] {
+                as_cat(cx, x, [&](auto &&xx) { as_cat(cy, y, [&](auto &&yy) { res.emplace(SIM_FWD(xx) * SIM_FWD(yy)); }); });
+              });
               finish(res);
             } else {
               std::optional<Sp<(kx > ky ? kx : ky)>> res;
               libcall(out, [&] {
-                if (op.kind == OP_P_ADD) res.emplace(x + y);
-                else res.emplace(x - y);
+                as_cat(cx, x, [&](auto &&xx) {
+                  as_cat(cy, y, [&](auto &&yy) {
+                    if (op.kind == OP_P_ADD) res.emplace(SIM_FWD(xx) + SIM_FWD(yy));
+                    else res.emplace(SIM_FWD(xx) - SIM_FWD(yy));
+                  });
+                });
               });
               finish(res);
             }
@@ -156,9 +164,13 @@ bool exec_arith(ExecCtx &c) {
               }
               int dk = grid_diff_kind(x.getSupport().getGrid(), y.getSupport().getGrid());
               sim::g_cur->note = same ? 2 : 1;
+              const bool alias = (const void *)&x == (const void *)&y;
+              const int cy = alias ? (int)CAT_CONST : value_cat(c, b, 1, same);
               libcall(out, [&] {
-                if (op.kind == OP_P_IADD) x += y;
-                else x -= y;
+                as_cat(cy, y, [&](auto &&yy) {
+                  if (op.kind == OP_P_IADD) x += SIM_FWD(yy);
+                  else x -= SIM_FWD(yy);
+                });
               });
               probe(PR_MATRIX0 + (op.kind == OP_P_IADD ? E_IADD : E_ISUB) * D_N + dk);
               c08_check(c, !same, true, distinct, site);
@@ -200,13 +212,16 @@ bool exec_arith(ExecCtx &c) {
             Fn fx = fn_of(x);
 #endif
             sim::g_cur->note = 2;
+            const int cx = value_cat(c, a, 0, true);
             libcall(out, [&] {
-              switch (op.kind) {
-                case OP_P_SCALE: res.emplace(x * s); break;
-                case OP_P_LSCALE: res.emplace(s * x); break;
-                case OP_P_DIV: res.emplace(x / s); break;
-                default: res.emplace(-x); break;
-              }
+              as_cat(cx, x, [&](auto &&xx) {
+                switch (op.kind) {
+                  case OP_P_SCALE: res.emplace(SIM_FWD(xx) * s); break;
+                  case OP_P_LSCALE: res.emplace(s * SIM_FWD(xx)); break;
+                  case OP_P_DIV: res.emplace(SIM_FWD(xx) / s); break;
+                  default: res.emplace(-SIM_FWD(xx)); break;
+                }
+              });
             });
             c03_must_succeed(c, true, site);
             if (res) {
